@@ -255,6 +255,7 @@ class Projector:
         if not m["xsd_ok"]:
             g["xsd_why"] = m["xsd_why"]
         g["proc"] = m["proc"] or ""
+        g["cdate"] = (m.get("creator") or {}).get("creationdate") or ""
         g["pats"] = list(m["pats"])
         g["files"] = []
         for r in m["files"]:
